@@ -74,6 +74,7 @@ type Contract struct {
 	NoInline     bool
 	Refines      string
 	NoSafety     bool
+	NoPanic      string // label of the nopanic clause
 	Auto         bool
 	InlineCalls  bool                 // callers inline the body (generic helpers whose effect depends on the dynamic type of an argument)
 	DecoderFrame bool                 // frame = syntactic mod-set, except decoder state which changes only at the decoder parameters
@@ -429,6 +430,14 @@ func (p *Prog) loadContractFile(path string) error {
 			cur.Trusted = true
 		case line == "noinline":
 			cur.NoInline = true
+		case strings.HasPrefix(line, "nopanic["):
+			// nopanic[label]: the function contains no reachable panic(...): clause <label>, trivially discharged
+			// when there is none, one more instance (which must be unreachable) per panic call
+			m := regexp.MustCompile(`^nopanic\[(\w+)\]$`).FindStringSubmatch(line)
+			if m == nil {
+				return fmt.Errorf("%s:%d: bad nopanic directive", path, lineNo)
+			}
+			cur.NoPanic = m[1]
 		case line == "nosafety":
 			cur.NoSafety = true
 		case line == "math_ints":
